@@ -17,6 +17,10 @@ pub struct Dual2_64 { pub re: f64, pub v1: f64, pub v2: f64 }
 pub struct HyperDual64 { pub re: f64, pub eps1: f64, pub eps2: f64, pub eps1eps2: f64 }
 pub struct Dual3_64 { pub re: f64, pub v1: f64, pub v2: f64, pub v3: f64 }
 
+// std functions a variant of the cache code may use (A3: specification of the standard library)
+pub assume_specification<T: Copy>[ Option::<&T>::copied ](o: Option<&T>) -> (r: Option<T>)
+    ensures r == (match o { Some(x) => Some(*x), None => None::<T> });
+
 // ---- ghost model
 /// the value a (canonical) key denotes for *this* state
 pub uninterp spec fn truth(k: PartialDerivative) -> f64;
